@@ -38,7 +38,7 @@ def scenario(tier):
         pl = [p for p in b.walk_files("PL") if posixpath.basename(p).startswith("packinglist_")]
         b.require(len(pl) == 1, "setup-flatten", str(pl))
         roots = sorted(set(layout + ["R"]))
-        pre = sym.choose("tree_state", ["unchanged", "altered", "deleted", "added", "tampered", "leftover-tmp"])
+        pre = sym.choose("tree_state", ["unchanged", "altered", "deleted", "added", "tampered", "leftover-tmp", "renamed-case-only"])
         if pre == "altered":
             b.alter("R/A/AA/aa1.txt", 33)
         elif pre == "deleted":
@@ -48,6 +48,8 @@ def scenario(tier):
         elif pre == "leftover-tmp":
             # what an interrupted create leaves behind (C15): nobody but a create writing that very name may touch it
             b.mkfile("R/ascmhl/0009_R_2020-01-02_030405Z.mhl.tmp", 77)
+        elif pre == "renamed-case-only":
+            b.rename("R/B/b 1.txt", "R/B/B 1.TXT")
         elif pre == "tampered":
             b.alter(posixpath.join("R/ascmhl", b.manifest_names("R")[0]), 2)
         cmd = sym.choose("command", READONLY + ["flatten", "create", "create-n", "create-sf", "create-sf-neighbour", "create-dr", "create-new-root",
